@@ -20,7 +20,8 @@ PROPERTY = "C09"
 RULE = ("mutation operations with 1..5 top-level fields (sync / deferred / nested-deferred resolvers, nested deferred "
         "sub-fields, lists of objects, resolver errors and non-null violations at every position): bounded-exhaustive over 3 "
         "top-level fields x 7 field shapes, then seeded random; all four configurations; ALL completion orders for <= 4 (quick) "
-        "/ <= 6 (thorough) tasks, FIFO + LIFO + random beyond. distinct non-trivial = distinct (operation, schedule) with >= 1 task")
+        "/ <= 6 (thorough) tasks, FIFO + LIFO + random beyond; top level written plainly, inside `... on Mutation {}` or as one "
+        "fragment spread; plus REAL 1- and 2-worker pools with in-flight resolvers (hard timeout). distinct non-trivial = distinct (operation, schedule) with >= 1 task")
 ASSUMPTIONS = base.ASSUMPTIONS + [
     "`call` = the executor invokes the resolver (for a pool-submitted resolver: the submission; its body can only start later), "
     "`done` = its result is available; both are recorded by the harness resolvers / the manual executor",
@@ -52,6 +53,9 @@ def shapes():
         ("deferred", I, {"r": "ok", "v": 2}),
         ("nested", I, {"r": "ok", "v": 3}),
         ("deferred", I, {"r": "rerr"}),
+        ("nested", I, {"r": "rerr"}),
+        ("ready", I, {"r": "rerr"}),
+        ("ready", sub, {"r": "ok", "v": {"c": {"r": "ok", "v": 7}, "d": {"r": "ok", "v": 8}}}),
         ("sync", {"t": "nn", "of": I}, {"r": "ok", "v": None}),
         ("deferred", sub, {"r": "ok", "v": {"c": {"r": "ok", "v": 4}, "d": {"r": "rerr"}}}),
         ("sync", sub, {"r": "ok", "v": {"c": {"r": "ok", "v": 5}, "d": {"r": "ok", "v": 6}}}),
@@ -83,11 +87,15 @@ def run(ctx):
                 ctx.notes.append("exhaustive stream cut by the time budget")
                 break
             ctx.stat("stream=exhaustive")
+            style = rng.choice(("plain", "inline", "spread"))
+            if style != "plain":
+                case = dict(case, style=style)
+            ctx.stat("style=" + style)
             chk.check(case, rng)
         i, n = 0, ctx.n(220, 2200)
         while i < n and time.time() < t_end:
             r = i % 4
-            case = W.gen_case(rng, kind="mutation", n_top=rng.randint(1, 5), depth=rng.randint(1, 2),
+            case = W.gen_case(rng, kind="mutation", n_top=rng.randint(1 if i % 5 else 2, 5), depth=rng.randint(1, 2),
                               p_sync=(0.15, 0.4, 0.6, 0.3)[r], p_nested=0.2, max_sub=2,
                               p_exc=0.06 if r == 3 else 0.0, p_rerr=0.18)
             ctx.stat("stream=random")
@@ -98,6 +106,7 @@ def run(ctx):
             i += 1
         ctx.extra["random_ops"] = i
         chk.flush()
+        base.real_pool_stage(ctx, "C09", extra_oracle=c09_oracle, n_random=4 if ctx.tier == "quick" else 30, kinds=("mutation",))
     finally:
         W.close_private_loop()
     ctx.extra["configurations"] = list(base.CONFIGS)
